@@ -450,6 +450,111 @@ def unenc(dir_, layout, shape, pos, A, ta, B, tb, uri, obs):
     return dict(ev="e2e", dir=dir_, layout=layout, fault="unencodable", pos=pos, shape=repr(shape)[:50], obs=obs)
 
 
+def live(rng, shape):
+    """one pair of sessions, one topic, keyrings that are changed between publications: none -> k1 -> k2, at one end first or
+    at both; after every change one publication is sent, routed to the subscriber and judged"""
+    args, kwargs = copy.deepcopy(shape)
+    steps, esc = [], ""
+    try:
+        kr0 = KeyRing()
+        keys = {}
+        for name in ("k1", "k2"):
+            o_priv, _ = kr0.generate_key()
+            r_priv, _ = kr0.generate_key()
+            keys[name] = (o_priv, r_priv)
+        ka, kb = KeyRing(), KeyRing()
+        A, ta = joined()
+        B, tb = joined()
+        A.set_payload_codec(ka)
+        B.set_payload_codec(kb)
+        got = []
+        B.subscribe(lambda *a, **kw: got.append((list(a), dict(kw))), URI["publish"])
+        fw.settle()
+        rx(B, message.Subscribed(tb.sent[-1][0].request, 100))
+        fw.settle()
+        prefix = rng.choice(["com.myapp.enc", "com.myapp.enc.topic1", "com.myapp"])
+        plan = rng.choice([[("none", "none"), ("k1", "k1"), ("k2", "k2")], [("k1", "k1"), ("k2", "k1"), ("k2", "k2")],
+                           [("none", "none"), ("none", "k1"), ("k1", "k1"), ("none", "k1")], [("k1", "k1"), ("none", "none"), ("k2", "k2")],
+                           [("none", "k1"), ("k1", "k1"), ("k1", "k2"), ("k2", "k2"), ("k1", "k1")]])
+        for ko, kr in plan:
+            for ring, k in ((ka, ko), (kb, kr)):
+                ring.set_key(prefix, None if k == "none" else Key(originator_priv=keys[k][0], responder_priv=keys[k][1]))
+            del got[:]
+            A.publish(URI["publish"], *args, **kwargs)
+            fw.settle()
+            pm = ta.sent[-1][0]
+            st = dict(ko=ko, kr=kr, encOnWire=bool(pm.enc_algo == "cryptobox" and pm.payload is not None), clearOnWire=bool(has_clear(pm) or pm.payload is None))
+            if pm.payload is not None:
+                ev = message.Event(100, 555, payload=pm.payload, enc_algo=pm.enc_algo, enc_key=pm.enc_key, enc_serializer=pm.enc_serializer)
+            else:
+                ev = message.Event(100, 555, args=pm.args, kwargs=pm.kwargs)
+            rx(B, ev)
+            fw.settle()
+            st["delivered"] = "none" if not got else ("exact" if got == [(args, kwargs)] else "altered")
+            steps.append(st)
+        if A.session_id is None or B.session_id is None:
+            esc = "session lost"
+    except Exception as e:  # noqa
+        esc = type(e).__name__ + ":" + str(e)[:80]
+    fw.reset()
+    return dict(ev="live", steps=steps, esc=esc, shape=repr(shape)[:50], dir="live", layout="live", fault="none", pos=len(steps))
+
+
+def errkeyed(rng, shape, layout):
+    """a procedure outside every keyed prefix (called in clear) raises an application error whose URI a key covers"""
+    args, kwargs = copy.deepcopy(shape)
+    obs = dict(encOnWire=False, clearOnWire=False, delivered="none", call="na", alive=True, esc="")
+    try:
+        ka, kb = keyrings("prefix" if layout == "prefix" else "split", "none", rng)
+        A, ta = joined()
+        B, tb = joined()
+        A.set_payload_codec(ka)
+        B.set_payload_codec(kb)
+        calls = []
+
+        def ep(*a, **kw):
+            calls.append((list(a), dict(kw)))
+            raise ApplicationError("com.myapp.enc.error1", *args, **kwargs)
+        B.register(ep, "com.public.lookup")
+        fw.settle()
+        rx(B, message.Registered(tb.sent[-1][0].request, 200))
+        fw.settle()
+        del tb.sent[:]
+        fut = A.call("com.public.lookup", 1)
+        res = {}
+        txaio.add_callbacks(fut, lambda r: res.setdefault("ok", r), lambda f: res.setdefault("err", f.value if hasattr(f, "value") else f))
+        fw.settle()
+        cm = ta.sent[-1][0]
+        rx(B, message.Invocation(900, 200, args=cm.args, kwargs=cm.kwargs))
+        fw.settle()
+        errs = [m for m, _ in tb.sent if isinstance(m, message.Error)]
+        if errs:
+            rm = errs[0]
+            obs["encOnWire"] = bool(rm.enc_algo == "cryptobox" and rm.payload is not None)
+            obs["clearOnWire"] = bool(has_clear(rm) or rm.payload is None)
+            fwd = message.Error(message.Call.MESSAGE_TYPE, cm.request, rm.error, args=rm.args, kwargs=rm.kwargs, payload=rm.payload, enc_algo=rm.enc_algo,
+                                enc_key=rm.enc_key, enc_serializer=rm.enc_serializer) if rm.payload is not None else \
+                message.Error(message.Call.MESSAGE_TYPE, cm.request, rm.error, args=rm.args, kwargs=rm.kwargs)
+            rx(A, fwd)
+            fw.settle()
+        if "err" in res:
+            e = res["err"]
+            if isinstance(e, ApplicationError) and e.error == "com.myapp.enc.error1":
+                obs["call"] = "apperror"
+                obs["delivered"] = "exact" if (list(e.args), dict(e.kwargs)) == (args, kwargs) else "altered"
+            else:
+                obs["call"] = "othererror:" + (e.error if isinstance(e, ApplicationError) else type(e).__name__)
+        elif "ok" in res:
+            obs["call"] = "ok"
+        else:
+            obs["call"] = "pending"
+        obs["alive"] = A.session_id is not None and B.session_id is not None
+    except Exception as e:  # noqa
+        obs["esc"] = type(e).__name__ + ":" + str(e)[:80]
+    fw.reset()
+    return dict(ev="errkeyed", obs=obs, shape=repr(shape)[:50], dir="errkeyed", layout=layout, fault="none", pos=0)
+
+
 def main():
     inp = driver_in()
     rng = random.Random(int(os.environ.get("VERIF_SEED", "0")) * 17 + 3)
@@ -472,6 +577,12 @@ def main():
                             positions = positions[:6]
                     for pos in positions:
                         traces.append([one(dir_, layout, fault, shape, pos, rng)])
+    for rep in range(6):
+        for shape in SHAPES:
+            traces.append([live(rng, shape)])
+    for layout in ("prefix", "split"):
+        for shape in SHAPES:
+            traces.append([errkeyed(rng, shape, layout)])
     driver_out(dict(fw=fw.NAME, traces=traces, cases=len(traces)))
 
 
